@@ -42,6 +42,10 @@ func isInstrumentedFunc(f *types.Func) bool {
 	if strings.HasPrefix(name, "sync/atomic.") || strings.HasPrefix(name, "(*sync/atomic.") {
 		return true
 	}
+	// library objects with an internal lock: one point per method call
+	if name == "(*sync.Once).Do" || strings.HasPrefix(name, "(*sync.Map).") {
+		return true
+	}
 	return false
 }
 
